@@ -53,6 +53,10 @@ class MyMapping(collections.abc.Mapping):
 KEYS8 = ['password', 'Admin_Pass', 'x_token_y', 'passwor', 'user', 3, ('password',), b'password']
 LEAVES = ['plain', 'password=abc', b'bytes', 7, None, ['password=abc'], 1.5,
           [{'password': 'in-a-list'}], ('t', {'secret': 'x'})]
+# string leaves carrying a secret in every letter case / rendering (depth-1 family)
+SECRET_LEAVES = ["{'adminPass': 'TL0EfN33'}", 'OS_PASSWORD=x1', '<adminPass>x2</adminPass>',
+                 '--Token x3', "AUTH_TOKEN = 'x4'", '"Secret_UUID": "x5"', 'no secret here',
+                 'x' * 5000 + ' --password x6']
 KEYS5 = ['password', 'x_token_y', 'user', 3, b'password']
 LEAVES4 = ['plain', '--token abc', 7, [{'password': 'in-a-list'}]]
 CONTAINERS = ['dict', 'MyMapping', 'proxy']
@@ -218,7 +222,9 @@ def run(ctx):
     l1 = level1(KEYS5, LEAVES4, 2, CONTAINERS)
     l2 = deeper(KEYS5, LEAVES4, 2, representatives(l1, 20 if full else 14), CONTAINERS)
     l3 = deeper(KEYS5, LEAVES4, 2, representatives(l2, 16 if full else 12), CONTAINERS)
-    groups = [('depth1', l1_full + l1_w3), ('depth2', l2), ('depth3', l3)]
+    lsec = level1(['body', 'msg', 3], SECRET_LEAVES, 2, CONTAINERS)
+    lsec += [('map', 'dict', (('outer', s2),)) for s2 in lsec[:40]]
+    groups = [('depth1', l1_full + l1_w3), ('secret-strings', lsec), ('depth2', l2), ('depth3', l3)]
     if full:
         l4 = deeper(KEYS5[:4], LEAVES4[:3], 2, representatives(l3, 8), CONTAINERS)
         groups.append(('depth4', l4))
